@@ -520,7 +520,7 @@ def gen_mapped(rng, tier):
     return cases
 
 
-DEEP_KINDS = FLAT_KINDS + ["struct"]
+DEEP_KINDS = FLAT_KINDS + ["struct", "inline"]
 HASHABLE_BAD = [None, 0, -3, "", "a", True, 7]
 
 
@@ -587,6 +587,15 @@ def corrupt_along(rng, vg, d, w, mode, hashable=False, depth=0):
         else:
             kvs[i][1] = corrupt_along(rng, vg, d["val"], kvs[i][1], mode, hashable, depth + 1)
         return {"m": kvs}
+    if k == "struct" and d.get("inline") and "m" in w and w["m"]:
+        # an inline StructureReference takes a dict in the constructor too
+        kw = [list(kv) for kv in w["m"]]
+        fields = dict((n, f) for n, f in d["fields"])
+        idx = [i for i, kv in enumerate(kw) if kv[0] in fields]
+        if idx:
+            i = rng.choice(idx)
+            kw[i][1] = corrupt_along(rng, vg, fields[kw[i][0]], kw[i][1], mode, hashable, depth + 1)
+            return {"m": kw}
     if k == "struct" and "o" in w and mode != "construct" and w["o"][1]:
         kw = [list(kv) for kv in w["o"][1]]
         fields = dict((n, f) for n, f in d["fields"])
@@ -618,6 +627,7 @@ def gen_deep(rng, tier, n_classes):
             want_struct = r < 0.3
             want_coll_of_struct = 0.3 <= r < 0.45
             for _ in range(30):
+<<<<<<< HEAD
                 # a collection nested >= 2 levels, a (top-level) class reference, or a collection of class references
                 if want_struct:
                     fd = dg.class_decl(1, n_fields=rng.randint(1, 3))
@@ -626,6 +636,11 @@ def gen_deep(rng, tier, n_classes):
                 else:
                     fd = dg.decl(0)
                 if (want_struct or want_coll_of_struct or container_depth(fd) >= 2) and '"inline"' not in json.dumps(fd):
+=======
+                # a collection nested >= 2 levels, or a (top-level) class reference
+                fd = dg.class_decl(1, n_fields=rng.randint(1, 3), inline=rng.random() < 0.35) if want_struct else dg.decl(0)
+                if want_struct or container_depth(fd) >= 2:
+>>>>>>> postfix_tmp
                     fields.append([nm, fd])
                     break
         if not fields:
